@@ -443,11 +443,12 @@ func judgeUnit(sh *shared, n *Node, u *unitRun, runErr error, allLines []statusL
 // asked before must end then — not earlier — with nothing; results asked afterwards end at once.
 func runExpiring(n *Node, statusLog string) (*unitRun, error) {
 	u := &unitRun{Plan: plan{Name: "expiring"}}
+	t0 := time.Now() // the time to live starts when the unit is allocated: not before the request is sent
 	unit, _, err := Submit(n.Sock, map[string]interface{}{"node": "c05nowhere", "worktype": "emit", "ttl": "2s"}, nil, 20*time.Second)
 	if err != nil || unit == "" {
 		return nil, fmt.Errorf("submit with ttl: %v", err)
 	}
-	u.Unit, u.TStart = unit, time.Now()
+	u.Unit, u.TStart = unit, t0
 	hardStop := time.Now().Add(20 * time.Second)
 	var wg sync.WaitGroup
 	start := func(moment string, ps []int) {
